@@ -215,7 +215,7 @@ func viol(key, desc string, kind string, a []string) {
 
 func runEther(a []string) string {
 	c, l, seed, ht := atoi(a[0]), atoi(a[1]), uint64(atoi(a[2])), uint16(atoi(a[3]))
-	src, dst := exact(lib.UnHex(a[4])), exact(lib.UnHex(a[5]))
+	src, dst := marg(lib.UnHex(a[4])), marg(lib.UnHex(a[5]))
 	buf, full, old := mkbuf(c, l, seed)
 	e := packet.EncodeEther(buf, ht, net.HardwareAddr(src), net.HardwareAddr(dst))
 	if c >= 14 && len(src) == 6 && len(dst) == 6 {
@@ -228,8 +228,8 @@ func runEther(a []string) string {
 
 func runEthPl(a []string) string {
 	c, l, seed, ht := atoi(a[0]), atoi(a[1]), uint64(atoi(a[2])), uint16(atoi(a[3]))
-	src, dst := exact(lib.UnHex(a[4])), exact(lib.UnHex(a[5]))
-	mode, payload, extra := a[6], lib.UnHex(a[7]), atoi(a[8])
+	src, dst := marg(lib.UnHex(a[4])), marg(lib.UnHex(a[5]))
+	mode, payload, extra := a[6], sarg(lib.UnHex(a[7])), atoi(a[8])
 	buf, full, old := mkbuf(c, l, seed)
 	e := packet.EncodeEther(buf, ht, net.HardwareAddr(src), net.HardwareAddr(dst))
 	var out packet.Ether
@@ -242,8 +242,11 @@ func runEthPl(a []string) string {
 		}
 		out, err = e.SetPayload(payload)
 	} else {
-		pl := make([]byte, len(payload), len(payload)+extra)
-		copy(pl, payload)
+		pl := payload
+		if roArena == nil {
+			pl = make([]byte, len(payload), len(payload)+extra)
+			copy(pl, payload)
+		}
 		out, err = e.AppendPayload(pl)
 		if want < 60 {
 			want = 60
@@ -280,7 +283,7 @@ func v4orZero(b []byte) []byte {
 func runIP4Pl(a []string) string {
 	c, l, seed, ttl := atoi(a[0]), atoi(a[1]), uint64(atoi(a[2])), byte(atoi(a[3]))
 	srcb, dstb := lib.UnHex(a[4]), lib.UnHex(a[5])
-	proto, mode, payload := byte(atoi(a[6])), a[7], lib.UnHex(a[8])
+	proto, mode, payload := byte(atoi(a[6])), a[7], sarg(lib.UnHex(a[8]))
 	buf, full, old := mkbuf(c, l, seed)
 	ip := packet.EncodeIP4(buf, ttl, addr(srcb), addr(dstb))
 	var out packet.IP4
@@ -317,7 +320,7 @@ func runUDP(a []string) string {
 func runUDPPl(a []string) string {
 	c, l, seed := atoi(a[0]), atoi(a[1]), uint64(atoi(a[2]))
 	sp, dp := uint16(atoi(a[3])), uint16(atoi(a[4]))
-	mode, payload := a[5], lib.UnHex(a[6])
+	mode, payload := a[5], sarg(lib.UnHex(a[6]))
 	buf, full, old := mkbuf(c, l, seed)
 	u := packet.EncodeUDP(buf, sp, dp)
 	var out packet.UDP
@@ -359,11 +362,11 @@ func parseClass(frame []byte) string {
 // the composition used by the library's own senders
 func runFrame4(a []string) string {
 	c, l, seed := atoi(a[0]), atoi(a[1]), uint64(atoi(a[2]))
-	smac, dmac := exact(lib.UnHex(a[3])), exact(lib.UnHex(a[4]))
+	smac, dmac := marg(lib.UnHex(a[3])), marg(lib.UnHex(a[4]))
 	ttl := byte(atoi(a[5]))
 	sipb, dipb := lib.UnHex(a[6]), lib.UnHex(a[7])
 	sp, dp := uint16(atoi(a[8])), uint16(atoi(a[9]))
-	data := lib.UnHex(a[10])
+	data := sarg(lib.UnHex(a[10]))
 	buf, full, old := mkbuf(c, l, seed)
 	ether := packet.EncodeEther(buf, 0x0800, net.HardwareAddr(smac), net.HardwareAddr(dmac))
 	ip4 := packet.EncodeIP4(ether.Payload(), ttl, addr(sipb), addr(dipb))
@@ -503,17 +506,19 @@ func main() {
 	fastlog.DefaultIOWriter = io.Discard // Session.Parse logs every online transition
 	packet.Logger.SetLevel(fastlog.LevelError)
 	rng := r.Rand()
-	r.Register("ether", runEther)
-	r.Register("ethpl", runEthPl)
+	r.Register("ether", rec("ether", runEther))
+	r.Register("ethpl", rec("ethpl", runEthPl))
 	r.Register("ip4", runIP4)
-	r.Register("ip4pl", runIP4Pl)
+	r.Register("ip4pl", rec("ip4pl", runIP4Pl))
 	r.Register("udp", runUDP)
-	r.Register("udppl", runUDPPl)
+	r.Register("udppl", rec("udppl", runUDPPl))
 	r.Register("frame4", rec("frame4", runFrame4))
 	registerMore(r)
 	registerPad(r)
 	registerReuse(r)
 	r.Register("concrace", runConcRace)
+	r.Register("ro", runRO)
+	r.Register("ethalias", runEthAlias)
 	if r.Replayed() {
 		return
 	}
@@ -587,6 +592,8 @@ func main() {
 			g.padCase(g.plenFor(packet.EthMaxSize, 42))
 		}
 	}
+	g.aliasCases()
+	runROPhase(r)
 	runConc(r, 8)
 	if r.Thorough() {
 		raceRun(r)
